@@ -9,6 +9,7 @@ import (
 	"net/http"
 	"net/url"
 	"strings"
+	"time"
 
 	"github.com/yandex/pandora/core"
 	"github.com/yandex/pandora/core/aggregator/netsample"
@@ -151,5 +152,38 @@ func HarnessC09ClientHeaders() {
 	}
 	vCheck("H5.request.uri.unchanged", c10rt.path == u.Path)
 	vObserve("nAuth", int64(c10rt.nAuth))
+	vReach("end")
+}
+
+// ---- C09 (keep-alive part, pandora's side): the transport the guns shoot through is configured
+// as the gun config says - every client option lands in the field of http.Transport it is named
+// after (symbolic, pairwise distinct values), keep-alives are on unless switched off, the TLS
+// server name is the target's host and HTTP/1.1 is pinned. How net/http then reuses connections is
+// the library's business.
+func HarnessC09TransportConfig() {
+	conf := DefaultClientConfig().Transport
+	d := func(name string) time.Duration { return time.Duration(vNondetInt(name, 1, 1<<40)) }
+	conf.TLSHandshakeTimeout, conf.IdleConnTimeout = d("tls"), d("idle")
+	conf.ResponseHeaderTimeout, conf.ExpectContinueTimeout = d("hdr"), d("cont")
+	conf.MaxIdleConns, conf.MaxIdleConnsPerHost = int(vNondetInt("maxIdle", 0, 1000)), int(vNondetInt("maxIdleHost", 0, 1000))
+	conf.DisableKeepAlives, conf.DisableCompression = vNondetBool("noKeepAlive"), vNondetBool("noCompression")
+	vAssume(conf.TLSHandshakeTimeout != conf.IdleConnTimeout && conf.IdleConnTimeout != conf.ResponseHeaderTimeout &&
+		conf.ResponseHeaderTimeout != conf.ExpectContinueTimeout && conf.TLSHandshakeTimeout != conf.ResponseHeaderTimeout &&
+		conf.TLSHandshakeTimeout != conf.ExpectContinueTimeout && conf.IdleConnTimeout != conf.ExpectContinueTimeout)
+	vAssume(conf.MaxIdleConns != conf.MaxIdleConnsPerHost)
+	tr := NewTransport(conf, nil, "target.example:8080")
+	vCheck("H6.idle.conn.timeout", tr.IdleConnTimeout == conf.IdleConnTimeout)
+	vCheck("H6.tls.handshake.timeout", tr.TLSHandshakeTimeout == conf.TLSHandshakeTimeout)
+	vCheck("H6.response.header.timeout", tr.ResponseHeaderTimeout == conf.ResponseHeaderTimeout)
+	vCheck("H6.expect.continue.timeout", tr.ExpectContinueTimeout == conf.ExpectContinueTimeout)
+	vCheck("H6.max.idle.conns", tr.MaxIdleConns == conf.MaxIdleConns && tr.MaxIdleConnsPerHost == conf.MaxIdleConnsPerHost)
+	vCheck("H6.keep.alives.as.configured", tr.DisableKeepAlives == conf.DisableKeepAlives)
+	vCheck("H6.compression.as.configured", tr.DisableCompression == conf.DisableCompression)
+	vCheck("H6.tls.server.name.is.target.host", tr.TLSClientConfig != nil && tr.TLSClientConfig.ServerName == "target.example")
+	vCheck("H6.http1.pinned", tr.TLSClientConfig != nil && len(tr.TLSClientConfig.NextProtos) == 1 && tr.TLSClientConfig.NextProtos[0] == "http/1.1")
+	// the documented defaults keep connections open between shots
+	def := DefaultClientConfig().Transport
+	vCheck("H6.default.keeps.connections", !def.DisableKeepAlives && def.IdleConnTimeout >= 30*time.Second)
+	vObserve("idle", int64(tr.IdleConnTimeout))
 	vReach("end")
 }
